@@ -113,6 +113,11 @@ def builtinTy : String → Option Ty
   | "uint16_to_string" => some (.func [.int 16 false] .string)
   | "uint32_to_string" => some (.func [.int 32 false] .string)
   | "uint64_to_string" => some (.func [.int 64 false] .string)
+  | "bool_to_json" => some (.func [.bool] .string)
+  | "json_escape_string" => some (.func [.string] .string)
+  | "string_len" => some (.func [.string] (.int 32 true))
+  | "float32_to_string" => some (.func [.float 32] .string)
+  | "float64_to_string" => some (.func [.float 64] .string)
   | _ => none
 
 /-- the callee annotation `tf` of a call of the program function `g` is the instance of `g`'s
@@ -133,7 +138,7 @@ def builtinOk (P : Prog) (f : String) (tf : Ty) : Bool :=
   (P.findFn f).isNone &&
     match builtinTy f with
     | some t => tyBeq t tf
-    | none => false
+    | none => f == "missing" && (match tf with | .func [.string] _ => true | _ => false)
 
 /-- the dispatch-table row `Sem` finds for `(tr, key τ, m)` names a function of the program whose
     signature is `(τ, argument types) -> result type` of the call -/
